@@ -132,11 +132,13 @@ Record kframe (C : sid -> Prop) (T : tid -> Prop) (s s' : st) : Prop := {
   fr_fut : forall f, f_st (futs s f) <> FPend -> futs s' f = futs s f;
   fr_fut2 : forall f, futs s' f = futs s f \/
                       (f_st (futs s f) = FPend /\ exists o, f_st (futs s' f) = FCanc o);
-  fr_sleep : forall f, sleepref s' f -> sleepref s f
+  fr_sleep : forall f, sleepref s' f -> sleepref s f;
+  fr_step : forall x, In (HStep x) (ready s') -> In (HStep x) (ready s);
+  fr_fut3 : forall f, futs s' f <> futs s f -> exists x, k_waiter (tasks s x) = Some f
 }.
 
 Lemma kframe_refl C T s : kframe C T s s.
-Proof. constructor; auto. Qed.
+Proof. constructor; auto. intros f H. exfalso. apply H. reflexivity. Qed.
 
 Lemma kframe_trans C T s1 s2 s3 : kframe C T s1 s2 -> kframe C T s2 s3 -> kframe C T s1 s3.
 Proof.
@@ -161,6 +163,11 @@ Proof.
       * right. rewrite <- E. eauto.
     + right. split; [exact Hp|]. exists o. rewrite (fr_fut _ _ _ _ B f); [exact Ho|]. rewrite Ho. discriminate.
   - intros f Hf. apply (fr_sleep _ _ _ _ A), (fr_sleep _ _ _ _ B), Hf.
+  - intros x Hx. apply (fr_step _ _ _ _ A), (fr_step _ _ _ _ B), Hx.
+  - intros f Hf. destruct (fr_fut2 _ _ _ _ A f) as [E|[Hp [o Ho]]].
+    + rewrite <- E in Hf. destruct (fr_fut3 _ _ _ _ B f Hf) as [x Hx]. exists x.
+      pose proof (tview_inv _ _ (fr_tv _ _ _ _ A x)) as V. destruct V as [_ [_ [V _]]]. now rewrite <- V.
+    + apply (fr_fut3 _ _ _ _ A f). intros E. rewrite E, Hp in Ho. discriminate.
 Qed.
 
 Lemma upd_task_tview s t g :
@@ -181,15 +188,17 @@ Proof. intros H k. destruct (H k) as [_ [_ [_ [H4 _]]]]. exact H4. Qed.
 
 Lemma kframe_upd_task_irrel C T s t g : tk_irrel g -> kframe C T s (upd_task s t g).
 Proof.
-  intros Hg. constructor; try reflexivity; auto.
+  intros Hg. constructor; try reflexivity; auto; try (intros f H; exfalso; apply H; reflexivity).
   - apply upd_task_tview, irrel_tview, Hg.
   - intros x _. cbn [upd_task set_tasks tasks]. unfold upd.
     destruct (Nat.eqb_spec x t); [subst; apply irrel_cur, Hg|reflexivity].
 Qed.
 
-Lemma kframe_fut_cancel C T s f o : kframe C T s (fut_complete s f (FCanc o)).
+Lemma kframe_fut_cancel C T s f o :
+  (f_st (futs s f) = FPend -> exists x, k_waiter (tasks s x) = Some f) ->
+  kframe C T s (fut_complete s f (FCanc o)).
 Proof.
-  destruct (fc_spec s f (FCanc o)) as [[_ ->]|[Hp [Ef Er]]]; [apply kframe_refl|].
+  intros Hwt. destruct (fc_spec s f (FCanc o)) as [[_ ->]|[Hp [Ef Er]]]; [apply kframe_refl|].
   constructor; rewrite ?fc_ntask, ?fc_nscope, ?fc_ngroup, ?fc_nfut, ?fc_nevent, ?fc_groups, ?fc_events,
     ?fc_running, ?fc_tasks, ?fc_scopes; auto.
   - intros x Hx. rewrite Ef. apply upd_other. congruence.
@@ -198,6 +207,10 @@ Proof.
     + left. exists tm. rewrite Er, in_app_iff in H. destruct H as [H|H]; [exact H|].
       destruct (f_waiter (futs s f)); cbn in H; [destruct H as [H|[]]; discriminate|contradiction].
     + right. exists y. rewrite fc_timers in H1. auto.
+  - intros x. rewrite Er, in_app_iff. intros [H|H]; [exact H|].
+    destruct (f_waiter (futs s f)); cbn in H; [destruct H as [H|[]]; discriminate|contradiction].
+  - intros x. rewrite Ef. unfold upd. destruct (Nat.eqb_spec x f) as [->|Hx]; [|intros H; exfalso; apply H; reflexivity].
+    intros _. exact (Hwt Hp).
 Qed.
 
 Lemma kframe_task_cancel C T s t o : kframe C T s (task_cancel s t o).
@@ -205,12 +218,15 @@ Proof.
   unfold task_cancel. destruct (k_done (tasks s t)); [apply kframe_refl|].
   set (s1 := upd_task s t _).
   assert (F1 : kframe C T s s1) by (apply kframe_upd_task_irrel, irrel_ncancel).
-  destruct (k_waiter (tasks s t)) as [f|].
+  destruct (k_waiter (tasks s t)) as [f|] eqn:Ew.
   - destruct (fut_pending s1 f).
-    + eapply kframe_trans; [exact F1|apply kframe_fut_cancel].
+    + eapply kframe_trans; [exact F1|apply kframe_fut_cancel]. intros _. exists t.
+      unfold s1. cbn [upd_task set_tasks tasks]. rewrite upd_same. cbn. exact Ew.
     + eapply kframe_trans; [exact F1|apply kframe_upd_task_irrel, irrel_must].
   - eapply kframe_trans; [exact F1|apply kframe_upd_task_irrel, irrel_must].
 Qed.
+
+Ltac fut_same := intros f0 Hf0; exfalso; apply Hf0; reflexivity.
 
 Lemma kframe_kprim C T s s' : kprim C T s s' -> kframe C T s s'.
 Proof.
@@ -221,23 +237,30 @@ Proof.
       destruct H as [H|H]; [contradiction|]. destruct (H (scopes s c)) as [H1 [H2 [H3 _]]]. auto.
     + intros c0 Hc0. cbn [upd_scope set_scopes scopes]. unfold upd.
       destruct (Nat.eqb_spec c0 c); [subst c0; auto|auto].
+    + fut_same.
   - apply kframe_task_cancel.
   - apply kframe_upd_task_irrel. assumption.
   - constructor; try reflexivity; auto.
-    intros f [[tm H]|H]; [|right; exact H]. left. exists tm.
-    cbn [call_soon set_ready ready] in H. rewrite in_app_iff in H. destruct H as [H|[H|[]]]; [exact H|discriminate].
+    + intros f [[tm H]|H]; [|right; exact H]. left. exists tm.
+      cbn [call_soon set_ready ready] in H. rewrite in_app_iff in H. destruct H as [H|[H|[]]]; [exact H|discriminate].
+    + intros x0. cbn [call_soon set_ready ready]. rewrite in_app_iff. intros [H|[H|[]]]; [exact H|discriminate].
+    + fut_same.
   - constructor; try reflexivity; auto.
-    intros f [[tm' H]|[y [H1 H2]]]; cbn [timer_cancel set_ready set_timers ready timers] in *.
-    + left. exists tm'. apply filter_In in H. tauto.
-    + right. exists y. apply filter_In in H1. tauto.
+    + intros f [[tm' H]|[y [H1 H2]]]; cbn [timer_cancel set_ready set_timers ready timers] in *.
+      * left. exists tm'. apply filter_In in H. tauto.
+      * right. exists y. apply filter_In in H1. tauto.
+    + intros x0. cbn [timer_cancel set_ready set_timers ready]. intros H. apply filter_In in H. tauto.
+    + fut_same.
   - constructor; try reflexivity; auto.
-    intros f [[tm' H]|[y [H1 H2]]]; cbn [call_at fst ready timers] in *.
-    + left. exists tm'. exact H.
-    + right. exists y. rewrite in_app_iff in H1. destruct H1 as [H1|[<-|[]]]; [auto|]. cbn in H2. discriminate.
+    + intros f [[tm' H]|[y [H1 H2]]]; cbn [call_at fst ready timers] in *.
+      * left. exists tm'. exact H.
+      * right. exists y. rewrite in_app_iff in H1. destruct H1 as [H1|[<-|[]]]; [auto|]. cbn in H2. discriminate.
+    + fut_same.
   - constructor; try reflexivity; auto.
     + apply upd_task_tview. intros k. reflexivity.
     + intros t0 Ht0. cbn [upd_task set_tasks tasks]. unfold upd.
       destruct (Nat.eqb_spec t0 t); [subst; contradiction|reflexivity].
+    + fut_same.
 Qed.
 
 Lemma kframe_kstar C T s s' : kstar C T s s' -> kframe C T s s'.
